@@ -431,7 +431,8 @@ func (bc *Blockchain) validateMempoolTx(txn adb.Txn, tx *transaction.Transaction
 		if stakedAmount == 0 && unlockHeight == 0 {
 			return fmt.Errorf("unstake failed: there's no such stake in the delegate funds")
 		}
-		if unlockHeight > nextheight {
+		// ApplyUnstake runs while the tip is still at nextheight-1 and requires tip height >= unlock height
+		if unlockHeight >= nextheight {
 			return fmt.Errorf("can't unstake: unlock height is %d, next height %d", unlockHeight, nextheight)
 		}
 
